@@ -41,6 +41,21 @@ def direct_checks(rts, perms, doc):
             vd = s.validate(copy_value(doc))
         except Exception as e:  # reported by the K/O passes
             return out
+        # the aggregates are read in every order on results of their own: what one of them says must not depend on which was read first
+        reads = {}
+        for order_ in (("num_rules_tested", "num_failures", "is_valid"), ("num_failures", "is_valid", "num_rules_tested"),
+                       ("is_valid", "num_rules_tested", "num_failures")):
+            try:
+                vdx = s.validate(copy_value(doc))
+                for nm in order_:
+                    reads.setdefault(nm, set()).add(repr(getattr(vdx, nm)))
+            except Exception:
+                reads = {}
+                break
+        if any(len(vals) > 1 for vals in reads.values()):
+            out.append({"kind": "direct", "what": "an aggregate of the result depends on the order in which the aggregates are read: "
+                        + repr({k_: sorted(v_) for k_, v_ in reads.items()})[:200], "perm": list(perm),
+                        "schema": [r.descr()[:200] for r in order], "doc": jval(doc)})
         pairs = sorted((want[j] if False else perm[want[j]], repr(tuple(f.path))) for j, t in enumerate(vd.rule_tests) for f in t.failures)
         agg = (vd.is_valid, vd.num_failures, vd.num_rules_tested, pairs)
         if vd.is_valid != all(t.is_valid for t in vd.rule_tests) or vd.num_failures != sum(len(t.failures) for t in vd.rule_tests) \
